@@ -55,22 +55,10 @@ func (aux *Aux) Call(gf slip.Object, s *slip.Scope, args slip.List, depth int) s
 		slip.ErrorPanic(s, depth, "generic-function %s requires at least %d arguments. Received %d.",
 			aux.docs.Name, aux.reqCnt, len(args))
 	}
-	aux.moo.Lock()
-	if aux.defaultCaller != nil {
-		caller := aux.defaultCaller
-		aux.moo.Unlock()
+	caller, meth := aux.findMethod(args)
+	if caller != nil {
 		return caller.Call(s, args, depth)
 	}
-	// Any further argument checking gets tricky as optinal could be keywords
-	// depending on then method's forms.
-	key := buildSpecKey(args[:aux.reqCnt])
-	meth := aux.cache[key]
-	if meth == nil {
-		if meth = aux.buildCacheMeth(args); meth != nil {
-			aux.cache[key] = meth
-		}
-	}
-	aux.moo.Unlock()
 	if meth != nil {
 		return meth.Call(s, args, depth)
 	}
@@ -78,6 +66,25 @@ func (aux *Aux) Call(gf slip.Object, s *slip.Scope, args slip.List, depth int) s
 	nam := slip.MustFindFunc("no-applicable-method")
 
 	return nam.Apply(s, append(slip.List{gf}, args...), depth)
+}
+
+// findMethod returns the default caller or the cached effective method for
+// the arguments. The lock is released even if building the method panics.
+func (aux *Aux) findMethod(args slip.List) (caller slip.Caller, meth *slip.Method) {
+	aux.moo.Lock()
+	defer aux.moo.Unlock()
+	if aux.defaultCaller != nil {
+		return aux.defaultCaller, nil
+	}
+	// Any further argument checking gets tricky as optinal could be keywords
+	// depending on then method's forms.
+	key := buildSpecKey(args[:aux.reqCnt])
+	if meth = aux.cache[key]; meth == nil {
+		if meth = aux.buildCacheMeth(args); meth != nil {
+			aux.cache[key] = meth
+		}
+	}
+	return
 }
 
 // AddMethod adds a method to the Aux.
